@@ -669,7 +669,130 @@ def check_c04(pid, tier, seed, rep):
     return cov
 
 
-CHECKS = {"C04": check_c04, "C11": check_c11, "C09": check_c09, "C10": check_c10, "C12": check_c12, "C15": check_c15, "C16": check_c16}
+def migrate_known(pid, rep):
+    import stage_w
+    open_ids = {k["id"] for k in vlib.known_findings() if k["status"] == "open" and k["property"] == pid}
+    for kid, r in stage_w.known_runs().items():
+        if kid in open_ids and r["reproduced"]:
+            rep.known_finding(kid, r["detail"])
+
+
+def check_c13(pid, tier, seed, rep):
+    """wire's injector vs the injector kessoku generates from the migrated file, on the same package and arguments."""
+    import stage_w
+    cov = prove(pid, rep)
+    W = stage_w.stage(seed, tier)
+    nviol = 0
+    ninj = 0
+    nscen = 0
+    rejected = 0
+    shapes = {}
+    for r in W["records"]:
+        for c in r["cfgs"]:
+            for k in c["kinds"].values():
+                shapes[k] = shapes.get(k, 0) + 1
+            shapes["external_packages"] = shapes.get("external_packages", 0) + bool(c.get("ext"))
+            shapes["bindings"] = shapes.get("bindings", 0) + len(c.get("used_iface", []))
+        if r["stage"] == "wire rejected the configuration":
+            rejected += 1
+            continue
+        probs = [p for p in r["problems"] if not p.startswith("C14:")]
+        for nm, pi in r["per_injector"].items():
+            ninj += 1
+            nscen += pi.get("scenarios", 0)
+            probs += ["%s: %s" % (nm, p) for p in pi["problems"]]
+        if probs and nviol < 4:
+            nviol += 1
+            rep.violation("case-%s" % r["name"], dict(package_dir=os.path.join(W["srcdir"], r["name"]), stage=r["stage"], problems=probs[:8], migrated=r.get("kessoku_go"),
+                                                       wire_signature=r.get("wire_sig"), kessoku_signature=r.get("kessoku_sig"),
+                                                       how="<package_dir>_w: wire gen; <package_dir>_k: kessoku migrate && kessoku kessoku.go; run both drivers on scen.json"),
+                          "%s: %s" % (r["name"], probs[0][:300]))
+    migrate_known(pid, rep)
+    if rejected > len(W["records"]) // 2:
+        rep.violation("harness", dict(rejected=rejected), "wire rejects most generated configurations: the harness no longer exercises the property", True)
+    cov.update(programs=ninj, disagreements_checked=nscen, evaluations=nscen, wire_rejected=rejected, input_distribution=shapes,
+               samples=[dict(case=r["name"], injectors=list(r["per_injector"]), migrated_head=(r.get("kessoku_go") or "")[:300]) for r in W["records"][:2]],
+               trusted_base=TRUSTED + ["google/wire v0.7.0 (built from the module cache) is the reference; its injectors are also compared with the configuration's reference evaluation"])
+    return cov
+
+
+def check_c14(pid, tier, seed, rep):
+    """Migrated file: alias allocator theorems + gofmt/vet/determinism of every migrated package + invalid inputs write nothing."""
+    import stage_w, random
+    cov = prove(pid, rep)
+    W = stage_w.stage(seed, tier)
+    nviol = 0
+    nfiles = 0
+    for r in W["records"]:
+        if r["stage"] == "wire rejected the configuration":
+            continue
+        nfiles += 1
+        probs = [p for p in r["problems"] if p.startswith("C14:") or "does not compile" in p or "does not build" in p or "refuses the migrated" in p]
+        if probs and nviol < 4:
+            nviol += 1
+            rep.violation("case-%s" % r["name"], dict(package_dir=os.path.join(W["srcdir"], r["name"]), problems=probs[:6], migrated=r.get("kessoku_go"),
+                                                       how="cd <package_dir>_k && kessoku migrate -o kessoku.go ./ && gofmt -l kessoku.go && (wire files set aside) go vet ."),
+                          "%s: %s" % (r["name"], probs[0][:300]))
+    migrate_known(pid, rep)
+    for b in W["invalid"]:
+        if b["rc"] == 0 or b["wrote"]:
+            nviol += 1
+            rep.violation("invalid-%s" % b["kind"], dict(case=b), "invalid input (%s): exit %d, output file %s" % (b["kind"], b["rc"], "written" if b["wrote"] else "not written"))
+    # alias allocator: real TypeConverter vs model
+    rnd = random.Random(seed * 17 + 1)
+    drv = build_overlay_tool("veriftypeconv", "typeconv_main.go")
+    names = ["config", "config_1", "config_2", "config_1_1", "v1", "v2", "sink", "log", "io"]
+    paths = ["a/config", "b/config", "c/config", "x/config_1", "y/config_1", "k8s/v1", "api/v1", "m/v2", "io", "log", "z/log", "g/sink", "h/sink", "q/config_2"]
+    hs = []
+    for i in range(120 if tier == "quick" else 2000):
+        h = []
+        for _ in range(rnd.randint(1, 14)):
+            p_ = rnd.choice(paths)
+            h.append([p_, p_.split("/")[-1] if rnd.random() < 0.7 else rnd.choice(names)])
+        hs.append(h)
+    rc, out, err = vlib.run([drv], input=json.dumps(hs), timeout=300)
+    if rc != 0:
+        raise RuntimeError("typeconv driver failed: " + err[-500:])
+    outs = json.loads(out)
+    for h, o in zip(hs, outs):
+        amap = {}
+        for (p_, d_), a in zip(h, o):
+            if amap.setdefault(p_, a) != a:
+                nviol += 1
+                rep.violation("alias-unstable", dict(history=h, aliases=o), "path %s changed its alias within one migration: %s" % (p_, o))
+                break
+        inv = {}
+        for p_, a in amap.items():
+            if inv.setdefault(a, p_) != p_:
+                nviol += 1
+                rep.violation("alias-shared", dict(history=h, aliases=o), "packages %s and %s share the alias %s" % (inv[a], p_, a))
+                break
+    def cs(x):
+        return '"' + x + '"'
+    path = os.path.join(vlib.scratch(), "cases_tc.v")
+    with open(path, "w") as f:
+        f.write("From Coq Require Import String List. Import ListNotations. Open Scope string_scope.\nRequire Import TypeConv.\n")
+        f.write("Definition cases : list (nat * (list (string * string) * list string)) := [\n" + ";\n".join(
+            "(%d, ([%s], [%s]))" % (i, "; ".join("(%s, %s)" % (cs(a), cs(b)) for a, b in h), "; ".join(cs(x) for x in o)) for i, (h, o) in enumerate(zip(hs, outs))) + "].\n")
+        f.write("Definition M := Eval vm_compute in tcv_mismatches cases.\nPrint M.\n")
+    rc, o2 = vlib.coqc_file(path, timeout=900)
+    m = re.search(r"M\s*=\s*\[(.*?)\]\s*:\s*list nat", o2, re.S)
+    mism = []
+    if rc != 0 or not m:
+        rep.violation("corr-coq", dict(log=o2[-2000:]), "alias cases do not evaluate in Coq", True)
+    else:
+        mism = [int(x) for x in re.split(r"[;\s]+", m.group(1).strip()) if x]
+    if mism and not nviol:
+        i = mism[0]
+        rep.violation("corr-alias-%d" % i, dict(correspondence="coq/TypeConv.v: add_all differs from TypeConverter.AddImport", history=hs[i], implementation=outs[i], disagreeing=len(mism)),
+                      "alias model and implementation differ on %d histories, e.g. %s -> %s" % (len(mism), hs[i][:4], outs[i][:4]), True)
+    cov.update(programs=nfiles + len(hs), disagreements_checked=len(hs) + nfiles, evaluations=nfiles + len(hs) + len(W["invalid"]), correspondence_disagreements=len(mism),
+               input_distribution=dict(migrated_packages=nfiles, alias_histories=len(hs), invalid_input_kinds=[b["kind"] for b in W["invalid"]]),
+               samples=[dict(history=hs[0], aliases=outs[0]), dict(invalid=W["invalid"][0])], trusted_base=TRUSTED + ["gofmt and go vet decide formatting and compilation of the migrated file"])
+    return cov
+
+
+CHECKS = {"C13": check_c13, "C14": check_c14, "C04": check_c04, "C11": check_c11, "C09": check_c09, "C10": check_c10, "C12": check_c12, "C15": check_c15, "C16": check_c16}
 for _p in ("C01", "C02", "C03", "C05", "C06", "C07", "C08"):
     CHECKS[_p] = check_layer_ab
 
